@@ -926,9 +926,9 @@ def expand(template_path, repo):
             if not sp['has_body']:
                 raise AnchorLost(f'{rel}: fn {qn} has no body')
             head = norm.vis(sf.text[sp['sig_start']:sp['params_close'] + 1])
-            if 'vis=crate' in opts and head.startswith('pub fn'):
+            if 'vis=crate' in opts and re.match(r'pub (unsafe )?fn\b', head):
                 # N1 for functions: `pub fn` -> `pub(crate) fn` (lets the contract mention crate-private spec functions / fields)
-                head = 'pub(crate) fn' + head[len('pub fn'):]
+                head = 'pub(crate)' + head[len('pub'):]
                 norm.counts['N1_visibility'] += 1
             body = sf.text[sp['body_open']:sp['body_close'] + 1]
             body = norm.body(body)
